@@ -225,6 +225,14 @@ func init() {
 				}
 			}
 		}
+		// L8: a loader-backed Get that joins a flight started by an explicit Refresh (of an absent key) or by another Get
+		// returns only after the value is published: its own read-back finds it
+		for _, ex := range []string{"caller", "default"} {
+			rcfg := CacheCfg{Refresh: "writing", RefreshTTL: 40, ClockStart: 1 << 40, Executor: ex}
+			jobs = append(jobs, concJob("L8:Refresh(absent)‖Get;read-back/"+ex, rcfg, []string{"set 2"}, [][]string{{"refresh 1 val"}, {"load 1 val", "get 1"}}, []string{"published"}, "native", pb, false, 8, budget, "published-checked"))
+			jobs = append(jobs, concJob("L8:Get‖Get;read-back/"+ex, rcfg, []string{"set 2"}, [][]string{{"load 1 val", "get 1"}, {"load 1 val", "get 1"}}, []string{"published"}, "native", pb, false, 8, budget, "published-checked"))
+			jobs = append(jobs, concJob("L8:BulkRefresh(absent)‖BulkGet;read-back/"+ex, rcfg, []string{"set 3"}, [][]string{{"bulkrefresh 1,2 full"}, {"load 1 val", "get 1"}}, []string{"published"}, "native", pb, false, 8, budget, "published-checked"))
+		}
 		// L6: InvalidateAll (one removal per key, each inside the call) against writers and readers of two keys
 		for _, ex := range []string{"caller", "default"} {
 			ws := []string{"set 1", "cia 3", "inv 1"}
